@@ -89,6 +89,19 @@ def equiv(cname, nmoves):
                 MJ2 = jit_twin(cluster.MonteCarloSampler_param(MC), sym)
                 ob('param-of-started-state', same_state(MC, MJ2))
                 ob('param-of-started-E', mc.lin_eq(MC.E(), MJ2.E(), sym))
+                # a compiled sampler built from a STARTED reference is an independent object: advancing it first and the
+                # reference afterwards must give the same state (no shared arrays)
+                un0 = [i for i in range(n) if mocc[i] == 0]
+                oc0 = [i for i in range(n) if mocc[i] == 1]
+                if un0 and oc0:
+                    MCb = mc.make_sampler(cfg, V, socc, jumps=True, ts=True)
+                    MCb.start(mocc.copy())
+                    MJb = jit_twin(cluster.MonteCarloSampler_param(MCb), sym)
+                    a0, b0 = un0[0], oc0[-1]
+                    MJb.update(a0, b0)
+                    MCb.update((a0,), (b0,))
+                    ob('compiled-first-then-reference-state', same_state(MCb, MJb))
+                    ob('compiled-first-then-reference-E', mc.lin_eq(MCb.E(), MJb.E(), sym))
             except Exception as e:   # noqa
                 ob('construct-or-start-raises', False, 'raises:' + type(e).__name__)
                 return obs
